@@ -51,6 +51,7 @@ const (
 	clsBadTable = 12
 	clsUnsigned = 13
 	clsLfanew   = 14 // e_lfanew < 64 (NT headers overlap the DOS header)
+	clsOptShort = 15 // optional header shorter than its magic
 	clsEntry    = 20 // per-entry failure (PKCS#7 parse / signature check) after a successful table walk
 	clsDigest   = 21 // digest mismatch
 	clsOther    = 90
@@ -73,6 +74,8 @@ func errClass(err error) int {
 		return clsNotPE
 	case strings.Contains(s, "NT headers overlap the DOS header"):
 		return clsLfanew
+	case s == "PE optional header is too short":
+		return clsOptShort
 	case s == "unrecognized optional header magic":
 		return clsMagic
 	case s == "PE header did not leave room for signature":
